@@ -83,6 +83,24 @@ func inQuick(P int, body bodyKind, size string, sub []int, mode, api string) boo
 	return true
 }
 
+// inExtended: part (B) runs the digit-bearing / bottom running-line header kinds on Letter pages with the body variants
+// that could interact with a misclassified running line (plain, numeric, numeric 80 pt from either edge); quick
+// additionally keeps only three page-number settings.
+func inExtended(thorough bool, pn pnKind, body bodyKind, size string) bool {
+	if size != "letter" {
+		return false
+	}
+	switch {
+	case body.name == "unique", body.name == "numeric", body.off == 80:
+	default:
+		return false
+	}
+	if !thorough {
+		return pn.style == "none" || pn.style == "n" && pn.pos == "bottom" || pn.style == "Page_n" && pn.pos == "top"
+	}
+	return true
+}
+
 func nontrivial(P int, hdr string, pn pnKind, body bodyKind) bool {
 	return P >= 2 && (hdr != "none" || pn.style != "none" || body.name != "unique")
 }
@@ -199,8 +217,11 @@ func checkFragments(d *ldoc, order string) (sig, detail, outcome string) {
 }
 
 func mustName(class string) string {
-	if class == "pagenum" {
+	switch class {
+	case "pagenum":
 		return "page-number"
+	case "ftr-same":
+		return "running-footer"
 	}
 	return "running-header"
 }
@@ -208,7 +229,7 @@ func mustName(class string) string {
 // badSig builds one stable signature from the violated clauses: the first stem in a fixed priority order plus the
 // classes of the offending lines (classes are a closed alphabet, not varying data).
 func badSig(bad map[string]map[string]bool) string {
-	for _, stem := range []string{"changed-without-repetition", "deleted-outside-band", "deleted-unrepeated-marginal", "deleted-unrepeated-line", "kept-running-header", "kept-page-number"} {
+	for _, stem := range []string{"changed-without-repetition", "deleted-outside-band", "deleted-unrepeated-marginal", "deleted-unrepeated-line", "kept-running-header", "kept-running-footer", "kept-page-number"} {
 		if c, ok := bad[stem]; ok {
 			return stem + ":" + joinSorted(c)
 		}
@@ -377,6 +398,9 @@ func partB(e *harness.Env) {
 						for _, sub := range subsets(P) {
 							for _, mode := range []string{"headers", "footers", "both"} {
 								for _, api := range apis {
+									if extendedHdr(hdr) && !inExtended(e.Thorough(), pn, body, size) {
+										continue
+									}
 									if !e.Thorough() && !inQuick(P, body, size, sub, mode, api.name) {
 										continue
 									}
@@ -576,16 +600,34 @@ func checkPDF(d *ldoc, path string, sub []int, mode string, api apiFn) (sig, det
 			bad[stem][class] = true
 			notes = append(notes, stem+": "+note)
 		}
-		if del > x.may {
+		may, must := x.may, x.must
+		if cU[t] > x.n {
+			// the API reports the line more than once per instance (Document() lists a detected heading or list item
+			// also as a paragraph): judge only the clear-cut cases
+			switch {
+			case x.may == 0:
+			case x.may == x.n:
+				may = cU[t]
+			default:
+				continue
+			}
+			if x.must == x.n {
+				must = cU[t]
+			} else {
+				must = 0
+			}
+		}
+		if del > may {
 			stem := x.why
 			if !anyMay {
 				stem = "changed-without-repetition"
 			}
-			flag(stem, x.class, fmt.Sprintf("line %q (class %s): %d of %d instances deleted, %d removable", t, x.class, del, cU[t], x.may))
+			flag(stem, x.class, fmt.Sprintf("line %q (class %s): %d of %d instances deleted, %d removable", t, x.class, del, cU[t], may))
 		}
-		if del < x.must {
-			flag("kept-"+mustName(x.mustClass), x.mustClass, fmt.Sprintf("line %q: %d of %d instances deleted, %d have to go", t, del, cU[t], x.must))
+		if del < must {
+			flag("kept-"+mustName(x.mustClass), x.mustClass, fmt.Sprintf("line %q: %d of %d instances deleted, %d have to go", t, del, cU[t], must))
 		}
+		x = &expect{n: x.n, may: may, must: must, why: x.why, class: x.class, mustClass: x.mustClass, mayClass: x.mayClass, maySide: x.maySide}
 		if del > 0 && del <= x.may {
 			removed[x.mayClassOr()] = true
 			if mode == "headers" && x.maySide == "bottom" || mode == "footers" && x.maySide == "top" {
